@@ -45,6 +45,11 @@ type c22Svc struct {
 	// fetched bytes, new assigner = service k-1): a privilege used in a way that depends on the
 	// inputs and cannot be repeated (it gives the role away)
 	AssignTo int `json:"assign_to,omitempty"`
+	// EjectTo k > 0: after its transfers the service calls eject on service k-1.
+	// VictimOf k > 0: the account is not a code-bearing service but an ejectable shell whose code
+	// hash is E_32(id of service k-1), with two items and one expired lookup entry [0, 0].
+	EjectTo  int `json:"eject_to,omitempty"`
+	VictimOf int `json:"victim_of,omitempty"`
 }
 
 type c22Result struct {
@@ -114,9 +119,40 @@ func c22GenChain(rt *rapid.T) c22Input {
 	return in
 }
 
+// c22GenEject: service 0 ejects service 1 while service 1 is itself accumulated in the same
+// round (it has a work result of its own): whether the removal or the victim's own result wins
+// must not depend on the order in which the round's results are visited.
+func c22GenEject(rt *rapid.T) c22Input {
+	var in c22Input
+	ids := rapid.Permutation([]uint32{1, 2, 5, 77, 300, 65536, 70001, 1 << 31, 4000000000}).Draw(rt, "ids")
+	ns := rapid.IntRange(2, 5).Draw(rt, "n_services")
+	for i := 0; i < ns; i++ {
+		in.Services = append(in.Services, c22Svc{ID: ids[i], Output: rapid.Bool().Draw(rt, "output")})
+	}
+	in.Services[0].EjectTo = 2
+	in.Services[1].VictimOf = 1
+	in.Reports = [][]c22Result{{{Svc: 0, Gas: 100000}}}
+	victim := c22Result{Svc: 1, Gas: 20000}
+	if rapid.Bool().Draw(rt, "same_report") {
+		in.Reports[0] = append(in.Reports[0], victim)
+	} else {
+		in.Reports = append(in.Reports, []c22Result{victim})
+	}
+	for i := 2; i < ns; i++ { // bystanders that pay the ejector and the victim
+		in.Reports[0] = append(in.Reports[0], c22Result{Svc: i, Gas: 50000})
+		in.Services[i].Plan = append(in.Services[i].Plan, c22Xfer{To: rapid.IntRange(0, 1).Draw(rt, "pays"), Amount: uint64(rapid.IntRange(1, 9).Draw(rt, "amount")), GasL: 200})
+	}
+	in.Slot = rapid.Uint32Range(40, 200).Draw(rt, "slot") // the victim's entry [0, 0] is older than D = 32 slots
+	in.Bless, in.Designate, in.CreateAcct, in.Assign = -1, -1, -1, -1
+	return in
+}
+
 func c22Gen(rt *rapid.T) c22Input {
-	if rapid.IntRange(0, 3).Draw(rt, "chain_shape") == 0 {
+	switch rapid.IntRange(0, 7).Draw(rt, "shape") {
+	case 0, 1:
 		return c22GenChain(rt)
+	case 2:
+		return c22GenEject(rt)
 	}
 	var in c22Input
 	ns := rapid.IntRange(3, 6).Draw(rt, "n_services")
@@ -299,6 +335,12 @@ func c22ServiceCode(in *c22Input, idx int) []byte {
 		a.loadImm64(10, put(m[:]))
 		a.ecalli(20)
 	}
+	if svc.EjectTo > 0 && svc.EjectTo <= len(in.Services) {
+		h := c22VictimHash()
+		a.loadImm64(7, uint64(in.Services[svc.EjectTo-1].ID))
+		a.loadImm64(8, put(h[:]))
+		a.ecalli(21)
+	}
 	out := blake2b.Sum256([]byte(fmt.Sprintf("output of service %d", svc.ID)))
 	outAddr := put(out[:])
 	if svc.OutSeen {
@@ -342,9 +384,25 @@ func c22ID(in *c22Input, idx int) types.ServiceID {
 	return types.ServiceID(c22AbsentID)
 }
 
+func c22VictimHash() types.OpaqueHash {
+	return types.OpaqueHash(blake2b.Sum256([]byte("c22 victim lookup entry")))
+}
+
 func c22Accounts(in *c22Input) types.ServiceAccountState {
 	d := types.ServiceAccountState{}
 	for i, s := range in.Services {
+		if s.VictimOf > 0 && s.VictimOf <= len(in.Services) {
+			var ch types.OpaqueHash
+			binary.LittleEndian.PutUint32(ch[:4], in.Services[s.VictimOf-1].ID)
+			const l = 5
+			d[types.ServiceID(s.ID)] = types.ServiceAccount{
+				ServiceInfo:    types.ServiceInfo{CodeHash: ch, Balance: 1000, MinItemGas: 1, Bytes: 81 + l, Items: 2, CreationSlot: 1, ParentService: types.ServiceID(s.ID)},
+				PreimageLookup: types.PreimagesMapEntry{},
+				LookupDict:     types.LookupMetaMapEntry{types.LookupMetaMapkey{Hash: c22VictimHash(), Length: l}: types.TimeSlotSet{0, 0}},
+				StorageDict:    types.Storage{},
+			}
+			continue
+		}
 		code := c22ServiceCode(in, i)
 		h := types.OpaqueHash(blake2b.Sum256(code))
 		acc := types.ServiceAccount{
